@@ -8,12 +8,15 @@ import JunoModel.C18.ProofsPruner
 C18 — property theorems (statements only; helper lemmas are in `ProofsSV`, `ProofsRunner`,
 `ProofsBlockTx`). Every theorem in this module is an obligation listed in evidence/C18.json.
 
-The models carry one flag per defect of the pinned code (`Cfg`, `BlockTx.Cfg`): flag `true` is the
-code as pinned, `false` the code with /verif/proposed-fixes applied; the harness probes which
-variant the tree under test is and runs the correspondence against that variant. A full-strength
-theorem is stated for the repaired variant; for the pinned variant the `_partial` theorem says
-what still holds and a `…_pinned` theorem is the proved negation of the full statement with a
-concrete witness (the same witness is replayed against the real code by the harness).
+THE MODEL IS THE CURRENT TREE (all recorded C18 defects are repaired in /repo: b4577f2, 69981ea,
+edddfcf, 197b4fe, 2d815bd, 322dd0d, 459a03c, dfe482d, 00e70b8, 1b3416d). The models still carry one
+flag per repaired defect (`Cfg`, `BlockTx.Cfg`, `Pruner.Cfg`, the `guard` of `Pruner.finish`): `false`
+(`Cfg.fixed`, the default of the driver — the harness has no way to select another variant) is the
+code as it is; `true` is the code BEFORE the named commit and exists only so that the regression
+witnesses `*_before_<sha>` can be stated: each is the proved negation of the full statement on the
+old variant, with the concrete witness the harness replays against the real code (a regression of
+the fix makes that replay an unlisted VIOLATION). Theorems about what still held on the old
+variants (`_partial`) are not obligations any more; they live in `Regression.lean`.
 -/
 namespace Juno.C18.Props
 open Juno.C18
@@ -52,18 +55,6 @@ theorem applied_implies_complete (cfg : Cfg) (hfix : cfg.markOnNilCtx = false) (
   · exact .inl h1
   · exact .inr h1
   · rw [hfix] at h1; cases h1
-
-/-- PARTIAL (pinned runner). What is missing from `applied_implies_complete`: a migration is
-also recorded as applied when `Migrate` returned `(nil, err)` with `errors.Is(err, ctx.Err())`
-after a cancellation (lead L9). Equivalently: the full statement holds for every history in which
-no migration returns that pair. -/
-theorem applied_implies_complete_partial (cfg : Cfg) (d : Disk) (sts : List Start) (j : Nat)
-    (h : (starts cfg d sts).1.cur.has j = true) :
-    d.cur.has j = true ∨ Completed (starts cfg d sts).2 j ∨ NilCtx (starts cfg d sts).2 j := by
-  rcases starts_applied cfg sts d j h with h1 | h1 | ⟨_, h1⟩
-  · exact .inl h1
-  · exact .inr (.inl h1)
-  · exact .inr (.inr h1)
 
 /-- One mandatory migration that blocks until cancellation (tick 3 = its `Migrate` call) and
 returns `(nil, wrapped ctx.Err())`. -/
@@ -145,15 +136,6 @@ theorem downgrade_and_optout_refused (cfg : Cfg) (hfix : cfg.ignoreUnknownLast =
   rw [newRunner_ok_iff, validateNoOptOut_fixed cfg hfix, validateNoVersionDowngrade_iff]
   exact ⟨fun h => ⟨h.2, h.1⟩, fun h => ⟨h.2, h.1⟩⟩
 
-/-- PARTIAL (pinned `NewRunner`). Missing: previously targeted migrations with an index beyond this
-binary's registry are not looked at. -/
-theorem downgrade_and_optout_refused_partial (cfg : Cfg) (hpin : cfg.ignoreUnknownLast = true) (reg : Registry) (d : Disk) :
-    newRunner cfg reg d = .ok ↔
-      (∀ j, d.cur.has j = true → reg.target.has j = true) ∧
-      (∀ j, j < reg.length → d.last.has j = true → reg.target.has j = true) := by
-  rw [newRunner_ok_iff, validateNoOptOut_pinned cfg hpin, validateNoVersionDowngrade_iff]
-  exact ⟨fun h => ⟨h.2, h.1⟩, fun h => ⟨h.2, h.1⟩⟩
-
 /-- REGRESSION WITNESS for the defect fixed by edddfcf: a newer binary targeted
 migration 2 (LastTarget = 0b111) and has not completed it (Current = 0b011); the binary with two
 migrations accepts the database. -/
@@ -228,9 +210,8 @@ theorem token_handed_to_next_start (cfg : Cfg) (d : Disk) (st1 st2 : Start) (j :
 
 open BlockTx
 
-/-- ABOUT A PROPOSED PATCH, NOT ABOUT /repo (`skipUnstoredEmpty = false` = the back-fill of
-proposed-fixes/C18-blocktx-backfill-empty-blocks.diff; the harness ties this variant to code only on a tree
-where the patch is applied — the probes then select it). For every chain (any height, empty blocks anywhere), from
+/-- CURRENT code (`overwriteMigrated = false`: b4577f2; `skipUnstoredEmpty = false`: the back-fill of
+empty blocks, 1b3416d). For every chain (any height, empty blocks anywhere), from
 every image in which each block is either still in the previous layout or migrated — in
 particular the previous-layout database and every crash image — and for every sequence of
 `Migrate` calls interrupted in any way (cancellation at the loop head or in the source after any
@@ -238,7 +219,7 @@ number of ranges, death with any subset of the emitted ranges committed, death b
 step): no block is ever lost or altered (`Inv` holds throughout); an undisturbed rerun returns
 `(nil, nil)`; and the final database is the database of an undisturbed run on the original
 image, block for block. -/
-theorem blocktx_resume_same_result_with_backfill_patch (cfg : BlockTx.Cfg) (hA : cfg.overwriteMigrated = false)
+theorem blocktx_resume_same_result (cfg : BlockTx.Cfg) (hA : cfg.overwriteMigrated = false)
     (hB : cfg.skipUnstoredEmpty = false) (orig : Orig) (h : Nat) (db : Db) (hw : WFOrig orig)
     (hi : Inv orig h db) (att : List (List Step)) :
     Inv orig h (attempts cfg db att) ∧
@@ -246,11 +227,11 @@ theorem blocktx_resume_same_result_with_backfill_patch (cfg : BlockTx.Cfg) (hA :
     (migrate cfg (attempts cfg db att) []).1 = (migrate cfg db []).1 :=
   ⟨(attempts_inv hA hw att db hi).1, resume_data hA hB hw hi att⟩
 
-/-- ABOUT A PROPOSED PATCH, NOT ABOUT /repo (see above). Whenever `Migrate` returns `(nil, nil)` — after any
+/-- CURRENT code. Whenever `Migrate` returns `(nil, nil)` — after any
 interruption history — every block up to the chain height is readable through the current
 accessors with exactly its original transactions and receipts, and no old entry is left.
 Together with `applied_implies_complete`: the bit is set only on such a database. -/
-theorem blocktx_preserves_with_backfill_patch (cfg : BlockTx.Cfg) (hA : cfg.overwriteMigrated = false)
+theorem blocktx_preserves (cfg : BlockTx.Cfg) (hA : cfg.overwriteMigrated = false)
     (hB : cfg.skipUnstoredEmpty = false) (orig : Orig) (h : Nat) (db : Db) (hw : WFOrig orig)
     (hi : Inv orig h db) (att : List (List Step)) (steps : List Step)
     (hd : (migrate cfg (attempts cfg db att) steps).2 = .done) (b : Nat) (hb : b ≤ h) :
@@ -259,38 +240,8 @@ theorem blocktx_preserves_with_backfill_patch (cfg : BlockTx.Cfg) (hA : cfg.over
   have hm := (migrate_done_allMigrated hA hB hw (attempts_inv hA hw att db hi).1 steps hd).2 b hb
   exact ⟨hm.2.2.2, by simp [oldView, hm.2.1, hm.2.2.1]⟩
 
-/-- CURRENT code (resume fix b4577f2 applied, `overwriteMigrated = false`; either variant of the
-final step). From every image satisfying `Inv` and under EVERY interruption pattern — cancellation,
-death with any subset of batches committed, failed batch writes — `Inv` is kept, an undisturbed
-rerun returns `(nil, nil)`, and whenever `Migrate` returns `(nil, nil)` every block WITH
-transactions reads through the current accessors as its original content with no old entry left;
-a block without transactions reads as the empty block or (the remaining known finding) as "not
-found". -/
-theorem blocktx_preserves_nonempty (cfg : BlockTx.Cfg) (hA : cfg.overwriteMigrated = false)
-    (orig : Orig) (h : Nat) (db : Db) (hw : WFOrig orig) (hi : Inv orig h db)
-    (att : List (List Step)) (steps : List Step) :
-    Inv orig h (attempts cfg db att) ∧
-    (migrate cfg (attempts cfg db att) []).2 = .done ∧
-    ((migrate cfg (attempts cfg db att) steps).2 = .done → ∀ b, b ≤ h →
-      (orig b ≠ ([], []) → view ((migrate cfg (attempts cfg db att) steps).1.blk b) = some (orig b) ∧
-        oldView ((migrate cfg (attempts cfg db att) steps).1.blk b) = ([], [])) ∧
-      (orig b = ([], []) → view ((migrate cfg (attempts cfg db att) steps).1.blk b) = none ∨
-        view ((migrate cfg (attempts cfg db att) steps).1.blk b) = some ([], []))) := by
-  have ha := (attempts_inv hA hw att db hi).1
-  refine ⟨ha, migrate_uninterrupted_any hA hw ha, ?_⟩
-  intro hd b hb
-  have hm := (migrate_done_any hA hw ha steps hd).2 b hb
-  refine ⟨fun hne => ?_, fun he => ?_⟩
-  · have := hm.1 hne
-    exact ⟨this.2.2.2, by simp [oldView, this.2.1, this.2.2.1]⟩
-  · rcases hm.2 he with m | u
-    · right; rw [← he]; exact m.2.2.2
-    · rcases u.2.2.2 with u0 | u0
-      · left; exact u0
-      · right; rw [← he]; exact u0
-
 /-- Reachability: the database as the previous layout wrote it satisfies `Inv` (so do, by
-`blocktx_preserves_nonempty`, all images reachable from it). -/
+`blocktx_resume_same_result`, all images reachable from it). -/
 theorem blocktx_previous_layout_inv (orig : Orig) (h : Nat) (db : Db) (ha : AllOld orig h db) : Inv orig h db :=
   ha.inv
 
@@ -298,51 +249,17 @@ theorem blocktx_previous_layout_inv (orig : Orig) (h : Nat) (db : Db) (ha : AllO
 def gapDb : Db :=
   ⟨some 20, fun b => if b < 10 ∨ b = 20 then ⟨some 1, [1], [101], none⟩ else ⟨some 0, [], [], none⟩⟩
 
-/-- PARTIAL, CURRENT code (`overwriteMigrated = false`, either variant of the final step): any
-interruption pattern followed by an undisturbed rerun returns `(nil, nil)` and reaches the database of
-an undisturbed run on every block WITH transactions and above the height; on a block without
-transactions the two databases agree except for the combined entry, which is absent or empty in
-either. What is missing from "the same final database": the entry of empty blocks (next theorem). -/
-theorem blocktx_resume_same_result_partial (cfg : BlockTx.Cfg) (hA : cfg.overwriteMigrated = false)
-    (orig : Orig) (h : Nat) (db : Db) (hw : WFOrig orig) (hi : Inv orig h db) (att : List (List Step)) :
-    (migrate cfg (attempts cfg db att) []).2 = .done ∧ (migrate cfg db []).2 = .done ∧
-    (∀ k, h < k → (migrate cfg (attempts cfg db att) []).1.blk k = (migrate cfg db []).1.blk k) ∧
-    ∀ k, k ≤ h →
-      (orig k ≠ ([], []) → (migrate cfg (attempts cfg db att) []).1.blk k = (migrate cfg db []).1.blk k) ∧
-      (orig k = ([], []) →
-        SameButBlob ((migrate cfg (attempts cfg db att) []).1.blk k) ((migrate cfg db []).1.blk k) ∧
-        (((migrate cfg (attempts cfg db att) []).1.blk k).blob = none ∨
-          ((migrate cfg (attempts cfg db att) []).1.blk k).blob = some ([], [])) ∧
-        (((migrate cfg db []).1.blk k).blob = none ∨ ((migrate cfg db []).1.blk k).blob = some ([], []))) :=
-  resume_data_partial hA hw hi att
-
-/-- NEGATION of "reaches the same final database" for the CURRENT code (`⟨false, true⟩`: resume fix
-applied, no back-fill), with witness: an undisturbed run stores the empty entry of block 10 (its range
+/-- REGRESSION WITNESS for the defect fixed by 1b3416d — negation of "reaches the same final database"
+on the variant without the back-fill (`⟨false, true⟩`): an undisturbed run stores the empty entry of block 10 (its range
 lies inside the pass); after a death with the first and the third range committed the rerun finds
 old entries only at block 20, passes over range 20 alone, returns `(nil, nil)` — and block 10 has no
 entry: the two final databases differ. -/
-theorem blocktx_resume_not_deterministic_pinned :
+theorem blocktx_resume_not_deterministic_before_1b3416d :
     (migrate ⟨false, true⟩ gapDb []).2 = .done ∧
     ((migrate ⟨false, true⟩ gapDb []).1.blk 10).blob = some ([], []) ∧
     (migrate ⟨false, true⟩ (attempts ⟨false, true⟩ gapDb [[.crash none [true, false, true]]]) []).2 = .done ∧
     ((migrate ⟨false, true⟩ (attempts ⟨false, true⟩ gapDb [[.crash none [true, false, true]]]) []).1.blk 10).blob = none := by
   decide
-
-/-- PARTIAL (pinned migration). What is missing from `blocktx_preserves`: (a) interruptions are
-restricted to cancellation (`Graceful`: no crash — after a crash an already migrated range can lie
-behind an unmigrated one and is overwritten, see `blocktx_resume_overwrites_before_b4577f2`); (b) only
-blocks WITH transactions are covered (empty blocks may be left without an entry, see
-`blocktx_empty_block_unreadable_pinned`). From the previous-layout database, after any number of
-cancelled runs, a run that returns `(nil, nil)` leaves every non-empty block readable with its
-original content. -/
-theorem blocktx_preserves_partial (cfg : BlockTx.Cfg) (hB : cfg.skipUnstoredEmpty = true) (orig : Orig) (h : Nat)
-    (db : Db) (hw : WFOrig orig) (ha : AllOld orig h db) (att : List (List Step)) (steps : List Step)
-    (hg : ∀ s ∈ att, ∀ st ∈ s, Graceful st) (hgs : ∀ st ∈ steps, Graceful st)
-    (hd : (migrate cfg (attempts cfg db att) steps).2 = .done) (b : Nat) (hb : b ≤ h)
-    (hne : orig b ≠ ([], [])) :
-    view ((migrate cfg (attempts cfg db att) steps).1.blk b) = some (orig b) := by
-  obtain ⟨p, hp⟩ := attempts_pinv hB hw att db 0 ha.pinv hg
-  exact ((migrate_pinv hB hw hp steps hgs).2 hd b hb hne).2.2.2
 
 /-- Blocks 0–9 in the previous layout, blocks 10–19 already migrated (a crash image of the pinned
 code: the batch holding range 10–19 was committed, the one holding range 0–9 was not). -/
@@ -366,9 +283,9 @@ with one transaction. -/
 def leadingEmptyDb : Db :=
   ⟨some 10, fun b => if b < 10 then ⟨some 0, [], [], none⟩ else ⟨some 1, [1], [101], none⟩⟩
 
-/-- NEGATION (pinned migration) with witness: the uninterrupted migration of a previous-layout
+/-- REGRESSION WITNESS for the defect fixed by 1b3416d: the uninterrupted migration of a previous-layout
 database returns `(nil, nil)` and block 0 is "not found" through the current accessors. -/
-theorem blocktx_empty_block_unreadable_pinned :
+theorem blocktx_empty_block_unreadable_before_1b3416d :
     AllOld (fun b => if b < 10 then ([], []) else ([1], [101])) 10 leadingEmptyDb ∧
     (migrate BlockTx.Cfg.pinned leadingEmptyDb []).2 = .done ∧
     view ((migrate BlockTx.Cfg.pinned leadingEmptyDb []).1.blk 0) = none ∧
@@ -419,56 +336,48 @@ below the pruned prefix — proposed-fixes/C18-historyprunner-cutoff-guards.diff
 start without resume state, whenever the pruner decides to prune, the cutoff is positive, not below
 the prefix that is already pruned, not above the chain height, and both set-up steps can run (the
 stager only touches blocks that still have their state update; the restorer's seed block
-`cutoff - 1` exists). The second guard is ABOUT A PROPOSED PATCH until it is applied (the harness
-probes both flags and runs the correspondence against the variant the tree has). -/
+`cutoff - 1` exists). CURRENT code (322dd0d, dfe482d); the harness compares the cutoff of the real
+migration with `Pruner.cutoff Cfg.fixed` on a grid of configurations. -/
 theorem pruner_cutoff_sound (cfg : Pruner.Cfg) (hz : cfg.zeroCutoffRuns = false) (hb : cfg.cutoffBelowPruned = false)
     (i : Pruner.In) (hp : i.pinnedCut = none) (hpr : i.pruned ≤ i.height) (c : Nat)
     (h : Pruner.cutoff cfg i = some c) :
     0 < c ∧ i.pruned ≤ c ∧ c ≤ i.height ∧ Pruner.setupOk i c = true :=
   Pruner.cutoff_fixed_ok cfg hz hb i hp hpr c h
 
-/-- PARTIAL (current code): the set-up steps can run when the cutoff happens to be positive and not
-below the pruned prefix. -/
-theorem pruner_cutoff_sound_partial (cfg : Pruner.Cfg) (i : Pruner.In) (c : Nat) (h : Pruner.cutoff cfg i = some c)
-    (hc : 0 < c) (hp : i.pruned ≤ c) (hh : c ≤ i.height) : Pruner.setupOk i c = true :=
-  Pruner.cutoff_partial cfg i c h hc hp hh
-
-/-- NEGATIONS with witnesses: (1) REGRESSION WITNESS for the defect fixed by 322dd0d — pivot = retainedBlocks (7 blocks, L1 head 4,
-retained 4): cutoff 0, the restorer's seed block is 2^64-1; (2) CURRENT code — a dead run pruned up to block 14 and
-the restart is configured with retained 9 (20 blocks, L1 head 17): cutoff 8 lies below the pruned prefix;
-(3) CURRENT code — a dead run pruned up to block 1 (and wiped the reverse lookups) and the restart's
-retention exceeds the pivot: "nothing to prune", the migration is recorded as applied with the lookups gone,
-where the patched decision finishes the started prune (cutoff 1). -/
-theorem pruner_cutoff_unsound_pinned :
+/-- REGRESSION WITNESS for the defect fixed by 322dd0d — pivot = retainedBlocks (7 blocks, L1 head 4,
+retained 4): cutoff 0 is taken as a real cutoff, the restorer's seed block is 2^64-1. -/
+theorem pruner_cutoff_zero_before_322dd0d :
     Pruner.cutoff Pruner.Cfg.pinned ⟨6, 4, 4, 0, none⟩ = some 0 ∧ Pruner.setupOk ⟨6, 4, 4, 0, none⟩ 0 = false ∧
-    Pruner.cutoff Pruner.Cfg.pinned ⟨19, 17, 9, 14, none⟩ = some 8 ∧ Pruner.setupOk ⟨19, 17, 9, 14, none⟩ 8 = false ∧
+    Pruner.cutoff Pruner.Cfg.fixed ⟨6, 4, 4, 0, none⟩ = none := by
+  decide
+
+/-- REGRESSION WITNESSES for the defect fixed by dfe482d (the cutoff is recomputed from the configuration
+alone after a dead run): (1) a dead run pruned up to block 14 and the restart is configured with retained 9
+(20 blocks, L1 head 17): cutoff 8 lies below the pruned prefix, the stager fails; (2) a dead run pruned up
+to block 1 (and wiped the reverse lookups) and the restart's retention exceeds the pivot: "nothing to
+prune", the migration is recorded as applied with the lookups gone. The current decision gives 14 and 1. -/
+theorem pruner_cutoff_ignores_pruned_prefix_before_dfe482d :
+    Pruner.cutoff ⟨false, true⟩ ⟨19, 17, 9, 14, none⟩ = some 8 ∧ Pruner.setupOk ⟨19, 17, 9, 14, none⟩ 8 = false ∧
+    Pruner.cutoff Pruner.Cfg.fixed ⟨19, 17, 9, 14, none⟩ = some 14 ∧
     Pruner.cutoff ⟨false, true⟩ ⟨31, 5, 8, 1, none⟩ = none ∧ Pruner.cutoff Pruner.Cfg.fixed ⟨31, 5, 8, 1, none⟩ = some 1 := by
   decide
 
 /-- The pruner's resume token vs. a death between the pruner's last commit and the runner's commit.
 `Pruner.Finished c h d`: the disk after a run that finished the pruner with cutoff `c` (history of every
 kept block live, scratch wiped) — and the runner did NOT record it, so whatever token an earlier
-cancellation stored is still there. With the PROPOSED guard (stager-phase token above the cutoff +
-empty scratch ⇒ restage from the cutoff; ABOUT A PROPOSED PATCH until applied — the harness family
-`pruner-stale-token` compares the set of blocks that lose their history with `Pruner.finish` for
-both variants) the next completed run keeps the history of every kept block, for every well-formed
+cancellation stored is still there. CURRENT code (00e70b8: a stager-phase token above the cutoff with
+an empty scratch namespace ⇒ restage from the cutoff; the harness family `pruner-stale-token` compares
+the set of blocks that lose their history with `Pruner.finish true`): the next completed run keeps the history of every kept block, for every well-formed
 token (restorer = 0 only in the stager phase). -/
 theorem pruner_stale_token_sound (c h : Nat) (tok : Pruner.Token) (d : Pruner.Disk) (hd : Pruner.Finished c h d)
     (htok : tok.2 = 0 → tok.1 ≤ h) (b : Nat) (hc : c ≤ b) (hh : b ≤ h) :
     b ∈ (Pruner.finish true c h tok d).live :=
   Pruner.finish_guarded_keeps c h tok d hd htok b hc hh
 
-/-- PARTIAL (current code, and the patched one): no loss when the stored token is not a stager-phase
-token above the cutoff (no token / stager at or below the cutoff / restorer phase). -/
-theorem pruner_stale_token_sound_partial (guard : Bool) (c h : Nat) (tok : Pruner.Token) (d : Pruner.Disk)
-    (hd : Pruner.Finished c h d) (hfresh : tok.1 ≤ c ∨ tok.2 ≠ 0) (b : Nat) (hc : c ≤ b) (hh : b ≤ h) :
-    b ∈ (Pruner.finish guard c h tok d).live :=
-  Pruner.finish_partial guard c h tok d hd hfresh b hc hh
-
-/-- NEGATION (current code): cutoff 5, height 9, a cancellation left the token (8, 0); a later run
+/-- REGRESSION WITNESS for the defect fixed by 00e70b8: cutoff 5, height 9, a cancellation left the token (8, 0); a later run
 finished the pruner and died before the runner's commit; the restart loses the history of blocks
 5, 6, 7 — exactly the blocks between the cutoff and the token — where the guarded variant loses none. -/
-theorem pruner_stale_token_loses_history_pinned :
+theorem pruner_stale_token_loses_history_before_00e70b8 :
     Pruner.lost 5 9 (Pruner.finish false 5 9 (8, 0) ⟨[5, 6, 7, 8, 9], []⟩) = [5, 6, 7] ∧
     Pruner.lost 5 9 (Pruner.finish true 5 9 (8, 0) ⟨[5, 6, 7, 8, 9], []⟩) = [] := by
   decide
